@@ -653,12 +653,38 @@ func (root *Root) resolveField(
 		var fv interface{} // field value
 		fv, ea2 = root.resolve(attr, vars, field, ft, depth)
 		ea = append(ea, ea2...)
-		result[field.key()] = fv
+		// A response key selected more than once, {o{a} o{b}}, has its
+		// sub-selections merged.
+		result[field.key()] = mergeSelected(result[field.key()], fv)
 	}
 	if depth < MaxResolveDepth {
 		Errors(ea).in(field.key())
 	}
 	return
+}
+
+// mergeSelected merges the value of a response key that was selected
+// before with the value of another selection of the same key: objects key by
+// key, lists of the same length element by element, anything else is
+// replaced.
+func mergeSelected(prev, next interface{}) interface{} {
+	switch tn := next.(type) {
+	case map[string]interface{}:
+		if tp, ok := prev.(map[string]interface{}); ok {
+			for k, v := range tn {
+				tp[k] = mergeSelected(tp[k], v)
+			}
+			return tp
+		}
+	case []interface{}:
+		if tp, ok := prev.([]interface{}); ok && len(tp) == len(tn) {
+			for i, v := range tn {
+				tp[i] = mergeSelected(tp[i], v)
+			}
+			return tp
+		}
+	}
+	return next
 }
 
 func (root *Root) addError(f *Field, ea []error, err error) []error {
